@@ -176,9 +176,18 @@ def rule_exempt(ctx: Ctx, repo: Repo) -> None:
     # producer table: modules from which generated *runtime* code takes names (stubs.build_module_stubs)
     bm = repo.fn("monkeytype.stubs", "build_module_stubs")
     producers = set()
-    for c in calls_in(bm.node):
-        if isinstance(c.func, ast.Attribute) and c.func.attr == "add" and isinstance(c.func.value, ast.Subscript) and isinstance(c.func.value.slice, ast.Constant):
-            producers.add(c.func.value.slice.value)
+    todo_p, seen_p = [bm], set()
+    while todo_p:  # build_module_stubs and the helpers of stubs.py it delegates to
+        f_p = todo_p.pop()
+        if f_p.fq in seen_p:
+            continue
+        seen_p.add(f_p.fq)
+        for c in calls_in(f_p.node):
+            if isinstance(c.func, ast.Attribute) and c.func.attr == "add" and isinstance(c.func.value, ast.Subscript) and isinstance(c.func.value.slice, ast.Constant):
+                producers.add(c.func.value.slice.value)
+            callee_p = repo.resolve_callee(f_p, c)
+            if callee_p is not None and callee_p.module.name == "monkeytype.stubs" and callee_p.fq not in seen_p:
+                todo_p.append(callee_p)
     ctx.floor("R-C16.3", "modules providing names to generated runtime code (build_module_stubs)", len(producers), 1)
     mods = ["typing", "mypy_extensions", "pkg.shapes", "typing_extra", "collections"] + sorted(producers)
     items = [item(m, "X") for m in dict.fromkeys(mods)]
